@@ -337,6 +337,31 @@ func run(r *vt.Run, t vt.TB, s spec) {
 				r.Count("no-primary-key-tables-asked-by-primary-key", 1)
 			}
 		}
+		// an index SQLite has and sqlittle does not report: fine when its
+		// definition is outside the grammar (the index is left out) - not when
+		// the library's own parser reads that definition without complaint
+		for _, ii := range cat.Indexes {
+			reported := false
+			for _, six := range sch.Indexes {
+				if fold.Equal(six.Index, ii.Name) {
+					reported = true
+				}
+			}
+			if reported || ii.Origin != "c" {
+				continue
+			}
+			isql, _ := env.O.Query("q", "SELECT sql FROM sqlite_master WHERE type = 'index' AND name = CAST(? AS TEXT)", valText(ii.Name))
+			if len(isql) != 1 || isql[0][0].T != 't' {
+				continue
+			}
+			if st, perr := sqsql.Parse(string(isql[0][0].B)); perr == nil {
+				if _, ok := st.(sqsql.CreateIndexStmt); ok {
+					fail("index-left-out-though-understood", "index %q (%s) is missing from the schema (which has %d indexes) although its definition parses", ii.Name, isql[0][0].B, len(sch.Indexes))
+					return
+				}
+			}
+			r.Count("indexes-left-out-for-their-definition", 1)
+		}
 		// every index sqlittle reports must exist in SQLite under that name
 		// with exactly those key columns, collations and directions
 		for _, six := range sch.Indexes {
